@@ -367,6 +367,21 @@ def read_ndjson(path):
 
 # --------------------------------------------------------------------------- model_run jobs
 
+SEEN_MESSAGES = set()
+_MSG = re.compile(r"\$[A-Za-z][A-Za-z_0-9.\-]+")
+
+
+def source_messages():
+    """the `$...` diagnostic keys written in the library's sources (builders, type checker, reader, scanner, grammar)"""
+    out = set()
+    for f in ("ExpressionBuilder.cpp", "StatementBuilder.cpp", "DocumentBuilder.cpp", "property.cpp", "typechecker.cpp", "xmlreader.cpp", "document.cpp", "lexer.l", "parser.y", "featurechecker.cpp", "abstractbuilder.cpp"):
+        try:
+            out.update(m.rstrip("_") for m in re.findall(r'"(\$[A-Za-z][A-Za-z_0-9.\-]+)', open(os.path.join(REPO, "src", f), errors="replace").read()))
+        except OSError:
+            pass
+    return out
+
+
 def run_jobs(jobs, run_dir, variant="asan", shards=None, timeout=3000, name="jobs", harness="model_run"):
     """run model_run over jobs (list of dicts with unique 'id') in parallel shards; returns {id: result}"""
     exe = build_harness(harness, variant)
@@ -392,6 +407,10 @@ def run_jobs(jobs, run_dir, variant="asan", shards=None, timeout=3000, name="job
             raise MachineryError("model_run failed rc=%s: %s" % (p.returncode, (err or b"")[-2000:]))
         for r in read_ndjson(op):
             res[r["id"]] = r
+        try:
+            SEEN_MESSAGES.update(_MSG.findall(open(op, errors="replace").read()))       # which diagnostics of the library the run has reached (coverage of its error paths)
+        except OSError:
+            pass
         os.unlink(jp)
         os.unlink(op)
     missing = [j["id"] for j in jobs if j["id"] not in res]
